@@ -440,6 +440,13 @@ class H2Peer:
         if reply and not self.sess.env.client_is_gone:
             self.sess.env.feed(reply)
 
+    def flush_pending(self) -> None:
+        """The current step was cut short because the server closed."""
+        if getattr(self, "_cur_ws", None) is not None:
+            self._cur_ws.flush_logs()
+        self._after = []
+        self.feeding = False
+
     def flush_replies(self) -> None:
         self.feeding = False
         reply = self._flush()
